@@ -101,14 +101,14 @@ impl From<Error> for io::Error {
     /// }
     /// ```
     fn from(l: Error) -> Self {
-        if let ErrorImpl::Io(err) = *l.0 {
-            err
-        } else {
-            match l.classify() {
-                Category::Io => unreachable!(),
-                Category::Syntax | Category::Data => io::Error::new(io::ErrorKind::InvalidData, l),
-                Category::Eof => io::Error::new(io::ErrorKind::UnexpectedEof, l),
-            }
+        match l.classify() {
+            Category::Io => match *l.0 {
+                ErrorImpl::Io(err) => err,
+                ErrorImpl::Parse(err) => err.into(),
+                ErrorImpl::Message(..) => unreachable!(),
+            },
+            Category::Syntax | Category::Data => io::Error::new(io::ErrorKind::InvalidData, l),
+            Category::Eof => io::Error::new(io::ErrorKind::UnexpectedEof, l),
         }
     }
 }
